@@ -24,6 +24,7 @@ from ..mplib import Q
 from ..verdict import Result
 
 LEVEL = "exploration"
+AWKWARD_REGISTRATION_MIX = True
 REPS = {"quick": 1, "thorough": 12}
 RULE = ("configuration lattice enumerated exhaustively: 20 source systems x 40 to_* targets (geometric + momentum "
         "spellings) x {mp object, float64 object, NumPy, Awkward} x {generic, momentum}; to_Vector2D/3D/4D, to_2D/3D/4D, "
@@ -55,6 +56,16 @@ def make(backend, system, rows, mom):
             arr[n] = [row[i] for row in rows]
         cls = getattr(vector, ("MomentumNumpy" if mom else "VectorNumpy") + f"{len(system) + 1}D")
         return [arr.view(cls)]
+    if backend.startswith("awkward-"):
+        import awkward as ak
+        import vector
+
+        dt = {"int64": numpy.int64, "float32": numpy.float32}[backend.split("-")[1]]
+        n = len(rows)
+        struct = [list(range(n // 2)), [], list(range(n // 2, n))]
+        names = B.names_for(system, mom, 0)
+        cols = {nm: ak.values_astype(ak.Array(awk.map_struct(struct, lambda r_, i=i: rows[r_][i])), dt) for i, nm in enumerate(names)}
+        return [vector.zip(cols)]
     if backend == "mp":
         return [B.mk_mp(system, [Q(mpf(c)) for c in row], mom) for row in rows]
     if backend == "object":
@@ -112,9 +123,11 @@ def run_shard(spec, tier, seed):
     def V(mech, **d):
         res.violation(f"C04/{mech}", d)
 
-    for backend in ("mp", "object", "numpy", "awkward", "numpy-int64", "numpy-float32"):
+    for backend in ("mp", "object", "numpy", "awkward", "numpy-int64", "numpy-float32", "awkward-int64", "awkward-float32"):
         bkey = f"{backend}|{fl}"
-        typed = backend.startswith("numpy-")
+        typed = backend.startswith(("numpy-", "awkward-"))
+        if backend.startswith("awkward-") and mom and not any(B.MOM_SPELL[x] for x in R.field_names(system)):
+            continue  # no momentum spelling exists for this system: vector.zip would build a generic array
         # ------------------------------------------------------------ (i)+(ii) to_* conversions at the same dimension
         src_core = make(backend, system, [l.exact_coords() for l in lrows] if backend == "mp" else core_rows, mom) if not typed else []
         for cname, (tsys, is_m) in C.CONVERSIONS.items():
@@ -252,13 +265,13 @@ def run_shard(spec, tier, seed):
                 check_passthrough(f"like({odim}D)", out, dim, added)
         # embeddings with every keyword spelling, scalar and array values
         def kwval(kind):
-            x = float(gen.dyadic(r, 0.2, 3))
+            x = float(gen.dyadic(r, 0.2, 3)) + 2.0 ** -40   # not representable in float32, not an integer
             zero = r.random() < 0.3  # exactly zero (a falsy value) is a legitimate coordinate
             if zero:
                 x = 0.0
             if kind == "array" and (backend in ("numpy", "awkward") or typed):
                 vals = [x + 0.125 * i for i in range(nrow)]
-                if backend == "numpy" or typed:
+                if backend.startswith("numpy"):
                     return numpy.array(vals), vals
                 return ak.Array([vals[: nrow // 2], [], vals[nrow // 2:]]), vals
             if backend == "mp":
